@@ -184,6 +184,9 @@ func run(ctx *core.Ctx) error {
 			return err
 		}
 	}
+	if err := manyObjects(ctx); err != nil {
+		return err
+	}
 	for _, f := range c02.Families {
 		progs, _, _, err := c02.Programs(ctx, f, ctx.Pick(500, 6000))
 		if err != nil {
@@ -257,6 +260,37 @@ func giantObjectStreams(ctx *core.Ctx) error {
 	for _, b := range bad {
 		key, what := classify(recs[b])
 		ctx.Violation(key+"/giant-objstm", what, map[string]any{"giant": len(recs[b].Written)})
+	}
+	return nil
+}
+
+// manyObjects: files with thousands of plain objects of irregular size, so
+// that the cross-reference stream itself is longer than the stream writer's
+// buffering threshold (its /Length handling differs on non-seekable sinks) and
+// the cross-reference table is long.
+func manyObjects(ctx *core.Ctx) error {
+	var recs []record
+	r := ctx.Rand("many-objects")
+	for _, cfg := range []c02.Config{
+		{Version: "1.7", Seekable: false}, {Version: "1.7", Seekable: true}, {Version: "1.4", Seekable: false}, {Version: "2.0", Human: true, Seekable: false},
+	} {
+		n := ctx.Pick(1500, 4000) + r.Intn(200)
+		run, err := c02.ExecuteMany(cfg, n, r.Int63())
+		if err != nil {
+			return core.Infra("many objects: %v", err)
+		}
+		recs = append(recs, Observe(run))
+		ctx.Ev.Eval(1)
+		ctx.Ev.Distinct(fmt.Sprintf("many-objects-%+v-%d", cfg, n))
+	}
+	bad, err := core.JudgeCases(ctx, core.TLCOpts{Dir: "file", Module: "Trace_PdfFileObserved", Cfg: "Trace_PdfFileObserved.cfg",
+		Timeout: ctx.Dur(10, 40), XssMB: 1024, XmxMB: 8000}, recs, 1, 4)
+	if err != nil {
+		return err
+	}
+	for _, b := range bad {
+		key, what := classify(recs[b])
+		ctx.Violation(key+"/many-objects", what, map[string]any{"many": len(recs[b].Written), "cfg": recs[b].Cfg})
 	}
 	return nil
 }
